@@ -388,7 +388,7 @@ func runC11(c *Ctx) {
 	}
 
 	// ---------- R11.9 transparent reconnect keeps the request
-	c.Rule("R11.9", "E3", "a transparently re-established remote watch sends the same request (queries, API version, aggregation), only bootstrap/tail/bookmark differ (shared with C13 R13.1)", 6)
+	c.Rule("R11.9", "E3", "a transparently re-established remote watch sends the same request (queries, API version, aggregation), only bootstrap/tail/bookmark differ (shared with C13 R13.1)", 4)
 	resumeRequestRule(c, "R11.9")
 
 	// ---------- R11.8 event tables
